@@ -104,6 +104,7 @@ def callbacks_in_integrate(reg, src, n=2):
                    backend="symbolic-exec", detail="callbacks invoked in the iteration: %r (expected %r)" % (it["cb"] if it else None, list(range(n))))
     c = IC.make_contract(n)
     c.loops[0]["on_iteration_end"] = iteration_end
+    c.loops[0]["on_break"] = iteration_end          # an iteration that leaves the loop by `break` has recorded its step too
     ex.verify(c)
     return src.func(IC.F, "OdeSystem.integrate")
 
@@ -126,8 +127,13 @@ def run(tier):
         for o in reg.obligations:
             o.name = o.name.replace("C16/", PID + "/", 1)
         no_bypass_scan(reg, src)
-        from . import C13
+        from . import C13, ctor
         R.under_contract(C13.check_reset(reg, src, PID))
+        # "since construction": a new system starts from its own counted wrapper (a copy when a DiffRHS was passed) and has made exactly
+        # one counted evaluation, the shape probe at the initial point
+        for fi in IC.verify_helpers(src, reg, PID):
+            R.under_contract(fi)
+        R.under_contract(ctor.check_ode_init(reg, src, PID)[0])
         R.under_contract(callbacks_in_integrate(reg, src, 2))
         # the sub-steps that land on a terminal event: the recursive integrate() is made without the caller's callbacks (pre-condition of
         # the contract it is replaced by), so callbacks run once per iteration of the caller's loop also when an event terminates the run
